@@ -173,3 +173,103 @@ theorem run_length (r : Rng) (xs : List Op) : (r.run xs).length = xs.length := b
   | cons x xs ih => simp only [Rng.run, List.length_cons, ih]
 
 end OmplModel.Rng
+
+namespace OmplModel.Rng
+
+/-! ### generators created in order -/
+
+/-- `n` default-constructed `RNG()` objects, in order -/
+def World.createN : Nat → World → World
+  | 0, w => w
+  | n + 1, w => World.createN n w.newRng.2
+
+theorem newRng_congr (w₁ w₂ : World) (hs : w₁.sg.sGen = w₂.sg.sGen) (hr : w₁.rngs = w₂.rngs) :
+    w₁.newRng.1 = w₂.newRng.1 ∧ w₁.newRng.2.sg.sGen = w₂.newRng.2.sg.sGen ∧
+      w₁.newRng.2.rngs = w₂.newRng.2.rngs := by
+  have h := nextSeed_sGen_congr w₁.sg w₂.sg hs
+  simp only [World.newRng]
+  rw [h.1]
+  cases h2 : w₂.sg.nextSeed.1 with
+  | none => exact ⟨rfl, h.2, hr⟩
+  | some s => exact ⟨rfl, h.2, by simp only [hr]⟩
+
+theorem createN_congr (n : Nat) (w₁ w₂ : World) (hs : w₁.sg.sGen = w₂.sg.sGen) (hr : w₁.rngs = w₂.rngs) :
+    (World.createN n w₁).rngs = (World.createN n w₂).rngs := by
+  induction n generalizing w₁ w₂ with
+  | zero => exact hr
+  | succ n ih =>
+    have h := newRng_congr w₁ w₂ hs hr
+    exact ih _ _ h.2.1 h.2.2
+
+/-- the `i`-th seed does not depend on how many more are drawn afterwards -/
+theorem seeds_getElem?_stable (n i : Nat) (g : SeedGen) (hi : i < n) :
+    (SeedGen.seeds n g)[i]? = (SeedGen.seeds (i + 1) g)[i]? := by
+  induction n generalizing i g with
+  | zero => omega
+  | succ n ih =>
+    cases i with
+    | zero => simp [SeedGen.seeds]
+    | succ i =>
+      simp only [SeedGen.seeds, List.getElem?_cons_succ]
+      exact ih i _ (by omega)
+
+end OmplModel.Rng
+
+namespace OmplModel.Rng
+
+/-! ### `ranlux24_base` stays within 24 bits -/
+
+
+/-- well-formedness of a `ranlux24_base` state: 24-bit words, carry bit -/
+def Swc.WF (g : Swc) : Prop := (∀ i, g.x.getD i 0 < swcWord) ∧ g.carry ≤ 1
+
+theorem getD_push_lt (a : Array Nat) (v b : Nat) (ha : ∀ i, a.getD i 0 < b) (hv : v < b) :
+    ∀ i, (a.push v).getD i 0 < b := by
+  intro i
+  have := ha i
+  simp only [Array.getD_eq_getD_getElem?, Array.getElem?_push] at *
+  split
+  · simpa using hv
+  · exact this
+
+theorem swcFill_lt (n l : Nat) (acc : Array Nat) (h : ∀ i, acc.getD i 0 < swcWord) :
+    ∀ i, (swcFill n l acc).getD i 0 < swcWord := by
+  induction n generalizing l acc with
+  | zero => exact h
+  | succ n ih =>
+    simp only [swcFill]
+    apply ih
+    apply getD_push_lt _ _ _ h
+    exact Nat.mod_lt _ (by decide)
+
+theorem ite01 (p : Prop) [Decidable p] : (if p then 1 else 0) ≤ 1 := by split <;> omega
+
+theorem Swc.seed_WF (v : UInt64) : (Swc.seed v).WF := by
+  refine ⟨?_, ?_⟩
+  · simp only [Swc.seed]
+    apply swcFill_lt
+    intro i; simp [swcWord]
+  · simp only [Swc.seed]
+    exact ite01 _
+
+theorem swcStep_lt (a b c : Nat) (ha : a < swcWord) (hb : b < swcWord) (hc : c ≤ 1) :
+    (if a ≥ b + c then (a - b - c, 0) else (swcWord - b - c + a, 1)).1 < swcWord ∧
+      (if a ≥ b + c then (a - b - c, 0) else (swcWord - b - c + a, 1)).2 ≤ 1 := by
+  simp only [swcWord] at *
+  split <;> simp <;> omega
+
+theorem Swc.next_WF (g : Swc) (h : g.WF) : g.next.1 < swcWord ∧ g.next.2.WF := by
+  obtain ⟨hx, hc⟩ := h
+  have key := swcStep_lt _ _ _ (hx (if g.p < 10 then g.p + 24 - 10 else g.p - 10)) (hx g.p) hc
+  simp only [Swc.next]
+  refine ⟨key.1, ?_, key.2⟩
+  intro i
+  have := hx i
+  simp only [Array.getD_eq_getD_getElem?, Array.getElem?_setIfInBounds] at *
+  split
+  · split
+    · simpa using key.1
+    · simp [swcWord]
+  · exact this
+
+end OmplModel.Rng
